@@ -18,6 +18,8 @@ redundant count for matrices: `m r c h…`).  Requests:
   red <name> <free|meth> <operand>     name ∈ sum prod norm max logsumexp logmeanexp
   dot <vec> <vec>
   infnorm free <nrows> <vec> ; infnorm meth <matrix operand>
+  long red|dot|infnorm|ew …     the same routes on operands generated from `<kind> <seed> <n>` (lengths up to 2^17+), element-wise
+                                results replied as a digest
 -/
 open Cv Cv.Vops Cv.VecOps Cv.C04W
 
@@ -107,8 +109,113 @@ def I0 : Interp Float := floatInterp (fun _ => nanF)
 
 def isNaNF (x : Float) : Bool := x.isNaN
 
+
+/-! ### `long` requests: operands built from a compact description (same generator in exec/src/bin/c04.rs and in the oracle) -/
+
+def mixU (seed i : UInt64) : UInt64 :=
+  let z := seed + i * 0x9E3779B97F4A7C15
+  let z := (z ^^^ (z >>> 30)) * 0xBF58476D1CE4E5B9
+  let z := (z ^^^ (z >>> 27)) * 0x94D049BB133111EB
+  z ^^^ (z >>> 31)
+
+/-- `ones`: 1.0; `iota`: (i mod 17) - 8; `hash`: (mix(seed, i) mod 13) - 6; `pm1`: ±1 from bit 40 of mix(seed, i) -/
+def genData (kind : String) (seed : UInt64) (n : Nat) : Option (List Float) :=
+  match kind with
+  | "ones" => some (List.replicate n 1.0)
+  | "iota" => some ((List.range n).map fun i => Float.ofNat (i % 17) - 8.0)
+  | "hash" => some ((List.range n).map fun i => Float.ofNat ((mixU seed (UInt64.ofNat i)) % 13).toNat - 6.0)
+  | "pm1" => some ((List.range n).map fun i => if ((mixU seed (UInt64.ofNat i)) >>> 40) &&& 1 == 1 then -1.0 else 1.0)
+  | _ => none
+
+/-- order-sensitive digest: `len`, Σ bits(xᵢ)·(2i+1) mod 2⁶⁴, first, last -/
+def digestL (xs : List Float) : String :=
+  let h := (xs.foldl (fun (acc : UInt64 × UInt64) x => (acc.1 + x.toBits * (2 * acc.2 + 1), acc.2 + 1)) (0, 0)).1
+  let f := match xs.head? with | some x => showFloat x | none => "-"
+  let l := match xs.getLast? with | some x => showFloat x | none => "-"
+  s!"{xs.length} {natToHex16 h.toNat} {f} {l}"
+
+def rowData (tr : Trait) (a b : Val Float) (sr orf : Nat) : Option (List Float) :=
+  match findRow tr (tyOf a sr) (tyOf b orf) with
+  | none => none
+  | some row => (evalRow I0.op row a b).bind listOf
+
+def pGen : P (String × UInt64 × Nat) := do
+  let k ← tok; let s ← pNat; pure (k, UInt64.ofNat s, 0)
+
+def longStep (args : List String) : String :=
+  match args with
+  | "red" :: name :: form :: rest =>
+    withArgs (do let k ← tok; let s ← pNat; let n ← pNat; pure (k, s, n)) rest fun (k, s, n) =>
+      match genData k (UInt64.ofNat s) n with
+      | none => badOp
+      | some d =>
+        let x? : Option (List Float) := if form == "mat" then (matNew d 1 n).map (·.data) else some d
+        match x? with
+        | none => panicked
+        | some x =>
+          match name with
+          | "sum" => ok (showFloat (sum8 x))
+          | "prod" => ok (showFloat (prodL x))
+          | "norm" => ok (showFloat (normL x))
+          | "max" => ok (showFloat (maxL isNaNF nanF x))
+          | "logsumexp" => ok (showFloat (logsumexpE isNaNF nanF (F64Consts.negInf (α := Float)) x))
+          | "logmeanexp" => ok (showFloat (logmeanexpL isNaNF nanF x))
+          | _ => badOp
+  | "dot" :: _form :: rest =>
+    withArgs (do let k1 ← tok; let s1 ← pNat; let k2 ← tok; let s2 ← pNat; let n ← pNat; pure (k1, s1, k2, s2, n)) rest
+      fun (k1, s1, k2, s2, n) =>
+        match genData k1 (UInt64.ofNat s1) n, genData k2 (UInt64.ofNat s2) n with
+        | some a, some b => match dot? a b with
+          | none => panicked
+          | some d => ok (showFloat d)
+        | _, _ => badOp
+  | "infnorm" :: form :: rest =>
+    withArgs (do let r ← pNat; let k ← tok; let s ← pNat; let n ← pNat; pure (r, k, s, n)) rest fun (r, k, s, n) =>
+      match genData k (UInt64.ofNat s) n with
+      | none => badOp
+      | some d =>
+        if form == "free" then
+          match infNormL isNaNF nanF d r with
+          | none => panicked
+          | some v => ok (showFloat v)
+        else
+          match (matNew d r (n / r)).bind (matInfNorm I0 isNaNF nanF) with
+          | none => panicked
+          | some v => ok (showFloat v)
+  | "ew" :: op :: rest =>
+    withArgs (do let k1 ← tok; let s1 ← pNat; let k2 ← tok; let s2 ← pNat; let n ← pNat; pure (k1, s1, k2, s2, n)) rest
+      fun (k1, s1, k2, s2, n) =>
+        match genData k1 (UInt64.ofNat s1) n, genData k2 (UInt64.ofNat s2) n with
+        | some x, some y =>
+          let r : Option (List Float) :=
+            match op with
+            | "vadd" => rowData .add (.vec x) (.vec y) 1 1
+            | "vsub" => rowData .sub (.vec x) (.vec y) 1 1
+            | "vmul" => rowData .mul (.vec x) (.vec y) 1 1
+            | "svmul" => rowData .mul (.scal 3.0) (.vec x) 0 1
+            | "svsub" => rowData .sub (.scal 100.0) (.vec x) 0 1
+            | "vssub" => rowData .sub (.vec x) (.scal 2.0) 1 0
+            | "vsdiv" => rowData .div (.vec x) (.scal 4.0) 1 0
+            | "asgadd" => rowData .addAssign (.vec x) (.vec y) 0 1
+            | "asgsmul" => rowData .mulAssign (.vec x) (.scal 5.0) 0 0
+            | "abs" => vecMap I0 .abs x
+            | "powi3" => vecMapI I0 .powi x 3
+            | "powi2" => vecMapI I0 .powi x 2
+            | "neg" => (negVal I0.neg (.vec x)).bind listOf
+            | "mmadd" =>
+              match matNew x 1 n, matNew y 1 n with
+              | some a, some b => rowData .add (.mat a) (.mat b) 1 1
+              | _, _ => none
+            | _ => none
+          match r with
+          | none => panicked
+          | some r => ok (digestL r)
+        | _, _ => badOp
+  | _ => badOp
+
 def c04Step (args : List String) : String :=
   match args with
+  | "long" :: rest => longStep rest
   | "bin" :: opS :: rest =>
     match c04Tok opS with
     | none => badOp
